@@ -825,10 +825,15 @@ def history_generator(rng, cfg, ndacs, length, rewire_ok):
                 # without `update` a re-registration raises unless the new program avoids the old generators
                 update = rng.random() < (0.93 if n in registered else 0.3)
                 pspec = random_program(rng, known_ch, known_m, malformed=0.06)
+                # the `measurements=` argument in its three forms: omitted (the program's own windows), an explicit
+                # non-empty mapping (replaces the program's), an explicit EMPTY mapping (no windows at all)
                 override = None
-                if rng.random() < 0.12 and known_m:
-                    ms = rng.sample(sorted(known_m), min(len(known_m), rng.choice([1, 2])))
-                    override = [(m, tuple(sorted(rng.sample(WINDOW_POOL, rng.choice([1, 2]))))) for m in sorted(ms)]
+                if rng.random() < 0.16:
+                    if rng.random() < 0.4 or not known_m:
+                        override = []
+                    else:
+                        ms = rng.sample(sorted(known_m), min(len(known_m), rng.choice([1, 2])))
+                        override = [(m, tuple(sorted(rng.sample(WINDOW_POOL, rng.choice([1, 2]))))) for m in sorted(ms)]
                 yield ('register', n, pspec, rng.random() > 0.03, update, override)
             elif r < 0.52:
                 yield ('remove', rng.choice(registered) if registered and rng.random() < 0.85 else rng.randrange(5))
@@ -899,6 +904,8 @@ EXH_PROGS = {
 EXH_ALPHABET = (
     [('register', 0, EXH_PROGS[k], True, u, None) for k in 'XYZM' for u in (True, False)] +
     [('register', 1, EXH_PROGS[k], True, True, None) for k in 'XY'] +
+    [('register', 0, EXH_PROGS['X'], True, True, []),                       # measurements={}: no windows at all
+     ('register', 0, EXH_PROGS['Z'], True, True, [(0, _V)])] +             # explicit mapping replaces the program's
     [('remove', 0), ('remove', 1), ('clear',), ('arm', 0), ('arm', 1)]
 )
 
@@ -1087,6 +1094,11 @@ def report(ctx, h, step, what, do_shrink=True):
                 what = v2[-1][2]
         except core.MachineryError:
             pass
+    key = json.dumps(ops_to_json(ops), sort_keys=True)
+    seen = ctx.__dict__.setdefault('_reported_histories', [])
+    if key in seen:
+        return                      # different failing histories shrank to the same minimal one
+    seen.append(key)
     ctx.violation('HardwareSetup routing: %s; history: %s' % (what, ' ; '.join(describe(op_to_plain(o)) for o in ops)),
                   {'kind': 'history', 'cfg': h['cfg'], 'ndacs': h['ndacs'], 'ops': ops_to_json(ops)})
 
@@ -1137,7 +1149,7 @@ RULE = ('histories of public HardwareSetup operations on real DummyAWG/DummyDAC 
         'measurements, malformed calls (non-callable callback, unknown names, out-of-range outputs, '
         'double registration, junk elements, 10 % with re-wiring of names in use and 10 % un-wiring histories '
         '(every device under one name, re-wired between register and remove/clear)); plus every history up to a '
-        'fixed length over a 15-letter alphabet on a fixed wiring and over a 10-letter re-wiring alphabet. Non-trivial = a normally returning register/remove/clear/arm/run step; '
+        'fixed length over a 17-letter alphabet on a fixed wiring and over a 10-letter re-wiring alphabet. Non-trivial = a normally returning register/remove/clear/arm/run step; '
         'distinct by operation and history prefix')
 
 
@@ -1167,7 +1179,7 @@ def run(ctx: core.Ctx):
         ctx.corpus_replayed += 1
 
     # exhaustive small scope
-    exh_len = ctx.n(3, 4)
+    exh_len = 3 if ctx.quick else 4          # a length, not a count: never escalated (ctx.n would multiply it)
     jobs = [(EXH_CFG[0], EXH_CFG[1], EXH_SETUP)]          # the shared wiring prefix, checked once
     jobs += [(EXH_CFG[0], EXH_CFG[1], ops, len(EXH_SETUP)) for ops in exhaustive_histories(exh_len)]
     ctx.exhaustive_spaces.append('all histories of length %d (prefixes included) over %d operations on a fixed wiring '
@@ -1175,7 +1187,7 @@ def run(ctx: core.Ctx):
     run_chunks(ctx, 'ops', jobs, 'exh', 1000)
 
     # exhaustive re-wiring scope (register / re-wire / remove / clear on devices that drop out of the wiring)
-    unw_len = ctx.n(3, 4)
+    unw_len = 3 if ctx.quick else 4
     jobs = [(UNW_CFG[0], UNW_CFG[1], UNW_SETUP)]
     jobs += [(UNW_CFG[0], UNW_CFG[1], ops, len(UNW_SETUP)) for ops in unwiring_histories(unw_len)]
     ctx.exhaustive_spaces.append('all histories of length %d over %d operations incl. re-wiring of the only name of a '
@@ -1183,7 +1195,7 @@ def run(ctx: core.Ctx):
     run_chunks(ctx, 'ops', jobs, 'unw', 1000)
 
     # exhaustive fault scope (a refusing device among several participants)
-    flt_len = ctx.n(3, 4)
+    flt_len = 3 if ctx.quick else 4
     jobs = [(EXH_CFG[0], EXH_CFG[1], ops, len(EXH_SETUP)) for ops in fault_histories(flt_len)]
     ctx.exhaustive_spaces.append('all histories of length %d over %d operations incl. fault injection on one of '
                                  'several participating devices (%d histories)' % (flt_len, len(FLT_ALPHABET), len(jobs)))
